@@ -29,11 +29,11 @@ CHECKS = {
          "collision behaviour of large families only as: n similar keys give n distinct retrievable entries (10^4 quick, 10^5 thorough per family)"),
  "C14": ("model_checking", "5", "TableHeap.tla: heap of live tables under every derivation (rows / cols / cols[expr] / + / *k / concatenate / _copy / _t) and assignment; after every step ALL live tables are compared with the value-semantics specification (rectangular, column list, scalars, cells), so a derivation that damages its source is seen",
          "roots of 0..3 rows, <= 3-5 live tables, depth 2-3 exhaustive + simulated depth 6-9; cells of columns that may share an in-place assigned array are Unknown; two dtype instantiations"),
- "C09": ("model_checking", "6", "Optimizer.tla trace specification: solve() calls recorded on real Optimize objects (TLC-enumerated call sequences x generated merit-function families x fault positions) must satisfy the named clauses: normal return => matched (independent re-evaluation), failure + restore_if_fail => iteration-0 knobs and flags",
-         "measurements (tolerances, penalties, ulp distances) come from a harness oracle; TLC decides the clauses on their integer abstractions; 150 problems quick / 1200 thorough"),
- "C10": ("model_checking", "6", "Optimizer.tla trace specification: every logged row within the closed limits, Jacobian steps bounded by max_step (ppm ratios), disabled knobs bit-identical, temporarily disabled flags active again, twin problems prove a disabled target has no influence, calls accept their documented arguments",
+ "C09": ("model_checking", "6", "OptProto.tla (step/solve/reload/tag/clear_log/enable/disable protocol over an abstract solver and an action raising at any evaluation) explored exhaustively over the design environments of MC_OptProto.tla for C09_ok / C09_restore, and bound by OptProtoTrace.tla (for every recorded call TLC searches the protocol's micro-steps for a path to the logged state; environment measured by the oracle); Optimizer.tla trace specification: solve() calls recorded on real Optimize objects (TLC-enumerated call sequences x generated merit-function families x fault positions) must satisfy the named clauses: normal return => matched (independent re-evaluation), failure + restore_if_fail => iteration-0 knobs and flags",
+         "measurements (tolerances, penalties, ulp distances) come from a harness oracle; TLC decides the clauses on their integer abstractions; 400 problems quick / 2000 thorough; design model <= 2 calls / 1 fault quick, <= 3 calls / 2 faults + reachability probes thorough"),
+ "C10": ("model_checking", "6", "OptProto.tla design exploration (C10_inlim / C10_flags / C10_fixed) and trace binding OptProtoTrace.tla as for C09; Optimizer.tla trace specification: every logged row within the closed limits, Jacobian steps bounded by max_step (ppm ratios), disabled knobs bit-identical, temporarily disabled flags active again, twin problems prove a disabled target has no influence, calls accept their documented arguments",
          "as C09; unit weights exact, other weights 4 ulp / 20 ppm"),
- "C15": ("model_checking", "6", "Optimizer.tla trace specification: reload(i) restores knobs (ulp) and flags and reproduces the row's penalty and targets; every logged row reproducible by the oracle; step(take_best) ends within tolerance or on the minimum-penalty row; the log stays rectangular after failures",
+ "C15": ("model_checking", "6", "OptProto.tla design exploration (C15_best / C15_reload / C15_last) and trace binding OptProtoTrace.tla as for C09; Optimizer.tla trace specification: reload(i) restores knobs (ulp) and flags and reproduces the row's penalty and targets; every logged row reproducible by the oracle; step(take_best) ends within tolerance or on the minimum-penalty row; the log stays rectangular after failures",
          "as C09; all rows of all logs produced by the enumerated call sequences, including failing solves and faults in the user's action"),
  "C19": ("model_checking", "7", "Madx.tla: syntax trees of the MAD-X grammar grown production by production, their minimal- and fully-parenthesised token sequences and exact immediate / deferred values; every string parsed and evaluated by the real MadxEval immediately and deferred (item and attribute mode), compared with the spec and with Python on the tree, then pushed through the manager and re-compared after each name changed",
          "3 productions over 5 atoms + 2 over 9 atoms quick (4 productions thorough), 3 environments, several number / operator / spacing spellings; libm functions decided by CPython"),
